@@ -29,6 +29,77 @@ def server():
     return _srv
 
 
+# ---- a provider that announces narrowed algorithm sets in all places: what a client registers must come from them
+CAPS = {
+    "subject_types_supported": ["public", "pairwise"],
+    "encrypt_request_object_supported": True,
+    "request_object_encryption_alg_values_supported": ["RSA-OAEP", "ECDH-ES"], "request_object_encryption_enc_values_supported": ["A128GCM", "A256GCM"],
+    "encrypt_id_token_supported": True,
+    "id_token_encryption_alg_values_supported": ["RSA-OAEP", "ECDH-ES"], "id_token_encryption_enc_values_supported": ["A128GCM", "A256GCM"],
+    "encrypt_userinfo_supported": True,
+    "userinfo_encryption_alg_values_supported": ["RSA-OAEP", "ECDH-ES"], "userinfo_encryption_enc_values_supported": ["A128GCM", "A256GCM"],
+    "id_token_signing_alg_values_supported": ["RS256", "ES256"], "userinfo_signing_alg_values_supported": ["RS256", "ES256"],
+    "request_object_signing_alg_values_supported": ["RS256", "ES256"], "token_endpoint_auth_signing_alg_values_supported": ["RS256", "ES256"],
+}
+PARAM2SUPPORTED = {
+    "request_object_signing_alg": "request_object_signing_alg_values_supported",
+    "request_object_encryption_alg": "request_object_encryption_alg_values_supported",
+    "request_object_encryption_enc": "request_object_encryption_enc_values_supported",
+    "userinfo_signed_response_alg": "userinfo_signing_alg_values_supported",
+    "userinfo_encrypted_response_alg": "userinfo_encryption_alg_values_supported",
+    "userinfo_encrypted_response_enc": "userinfo_encryption_enc_values_supported",
+    "id_token_signed_response_alg": "id_token_signing_alg_values_supported",
+    "id_token_encrypted_response_alg": "id_token_encryption_alg_values_supported",
+    "id_token_encrypted_response_enc": "id_token_encryption_enc_values_supported",
+    "token_endpoint_auth_signing_alg": "token_endpoint_auth_signing_alg_values_supported",
+}
+OUTSIDE = {"alg_sig": "HS256", "alg_enc": "RSA1_5", "enc": "A128CBC-HS256"}
+_capsrv = None
+
+
+def capserver():
+    global _capsrv
+    if _capsrv is None:
+        _capsrv = opbase.make_op(extra={"capabilities": dict(CAPS)})
+    return _capsrv
+
+
+def caps_cases():
+    out = []
+    for p in PARAM2SUPPORTED:
+        for where in ("inside", "outside"):
+            out.append({"t": "caps", "param": p, "where": where})
+    return out
+
+
+def _caps_impl(c):
+    s = capserver()
+    pi = s.context.provider_info
+    p = c["param"]
+    sup = list(pi.get(PARAM2SUPPORTED[p]) or [])
+    kind = "enc" if p.endswith("_enc") else "alg_enc" if "encrypt" in p else "alg_sig"
+    val = sup[-1] if c["where"] == "inside" and sup else OUTSIDE[kind]
+    req = {"redirect_uris": ["https://rp.example.org/cb"], p: val}
+    if p.endswith("_enc"):
+        alg_p = p[:-4] + "_alg"
+        req[alg_p] = (pi.get(PARAM2SUPPORTED[alg_p]) or ["RSA-OAEP"])[-1]       # enc comes with an alg: a supported one
+    reg = s.get_endpoint("registration")
+    try:
+        pr = reg.parse_request(req)
+        if "error" in pr:
+            return {"r": "refused", "announced": sup, "value": val}
+        out = reg.process_request(pr)
+    except Exception as e:
+        return {"r": "refused", "announced": sup, "value": val, "e": type(e).__name__}
+    ra = out.get("response_args") if isinstance(out, dict) else None
+    if not ra or "client_id" not in ra:
+        return {"r": "refused", "announced": sup, "value": val}
+    rec = s.context.cdb.get(ra["client_id"], {})
+    res = {"r": "registered", "announced": sup, "value": val, "stored": rec.get(p), "echoed": ra.get(p)}
+    del s.context.cdb[ra["client_id"]]
+    return res
+
+
 URIS = ["https://rp.example.com/cb", "http://rp.example.com/cb", "http://localhost:8080/cb", "http://127.0.0.1/cb", "myapp://cb", "com.example.app:/oauth",
         "https://rp.example.com/cb#frag", "http://localhost/cb#f", "myapp://cb#frag", "https://rp.example.com/cb?x=1", "HTTPS://rp.example.com/CB",
         "http://[::1]/cb", "https://localhost/cb", "https://rp.example.com/cb2"]
@@ -62,7 +133,7 @@ def cases(rng, tier):
             else:
                 ops.append(["read", rng.randrange(nreg), rng.randrange(nreg)])
         out.append({"t": "hist", "ops": ops})
-    return out
+    return out + caps_cases()
 
 
 def eff_rt(rt):
@@ -80,6 +151,8 @@ def shape(uri):
 
 
 def impl(c):
+    if c.get("t") == "caps":
+        return _caps_impl(c)
     s = server()
     ctx = s.context
     for k in [k for k in ctx.cdb if k not in ("client_1", "client_2")]:
@@ -138,6 +211,8 @@ def impl(c):
 
 
 def model_lines(c, obs):
+    if c.get("t") == "caps":
+        return []          # capability matching (match_claim) is outside the Lean model: the oracle states the rule
     lines = ["reg\treset"]
     regs = []    # register-op index -> model id (or None)
     nxt = 0
@@ -156,6 +231,8 @@ def model_lines(c, obs):
 
 
 def compare(c, obs, outs):
+    if c.get("t") == "caps":
+        return []
     d = []
     k = 1
     for op, st in zip(c["ops"], obs["steps"]):
@@ -191,6 +268,16 @@ def py_rule(uri, app_type, response_types):
 
 def oracle(c, obs):
     v = []
+    if c.get("t") == "caps":
+        if not obs["announced"]:
+            return [{"cls": "caps-world-not-as-intended", "param": c["param"]}]
+        if obs["r"] == "registered":
+            for what in ("stored", "echoed"):
+                if obs[what] is not None and obs[what] not in obs["announced"]:
+                    v.append({"cls": "unsupported-metadata-" + what, "param": c["param"], "value": obs[what]})
+            if c["where"] == "inside" and obs["stored"] != obs["value"]:
+                v.append({"cls": "supported-metadata-not-registered", "param": c["param"]})
+        return v
     ids, secrets, tokens = set(), set(), set()
     for op, st in zip(c["ops"], obs["steps"]):
         if op[0] == "register":
@@ -220,8 +307,12 @@ def known_key(c, v, known):
 
 
 def classify(c, obs):
+    if c.get("t") == "caps":
+        return "caps:" + c["where"] + ":" + obs["r"]
     return "hist:" + ",".join(sorted({s["r"] for s in obs["steps"]}))
 
 
 def nontrivial(c, obs):
+    if c.get("t") == "caps":
+        return True
     return any(op[0] == "read" or op[2] == "native" or op[4] or any(not u.startswith("https://") or "#" in u for u in op[1]) for op in c["ops"])
